@@ -218,6 +218,37 @@ pub fn c11(rep: &mut Report, aux: &str, thorough: bool, seed: u64) {
         }
         crate::ops_syntax::prop_expr_family(rep, "C08", if thorough { 20000 } else { 2000 }, &mut rng);
     }
+    // properties of strings at run time: `^\\p{P}$` under v on every candidate sequence of the committed ICU snapshot
+    {
+        let sp = std::path::Path::new(aux).with_file_name("c11_strings.txt");
+        if let Ok(text) = std::fs::read_to_string(&sp) {
+            let mut cur: Option<(String, Regex)> = None;
+            for line in text.lines() {
+                let mut it = line.splitn(3, ' ');
+                let (prop, want, cps) = (it.next().unwrap_or(""), it.next().unwrap_or("") == "1", it.next().unwrap_or(""));
+                if cur.as_ref().map(|c| c.0 != prop).unwrap_or(true) {
+                    match compile(&format!("^\\p{{{}}}$", prop), "v", false) {
+                        Ok(re) => cur = Some((prop.to_string(), re)),
+                        Err(_) => {
+                            rep.violation("impl-vs-oracle", format!("\\p{{{}}} rejected under v", prop), prop.to_string());
+                            continue;
+                        }
+                    }
+                }
+                let s: String = cps.split('.').filter_map(|h| u32::from_str_radix(h, 16).ok()).filter_map(char::from_u32).collect();
+                let got = cur.as_ref().unwrap().1.find(&s).is_some();
+                rep.count("string-property-runtime");
+                if got != want {
+                    rep.violation(
+                        "impl-vs-oracle",
+                        format!("/^\\p{{{}}}$/v on <{}>: regress {} but ICU 78.2 {}", prop, cps, if got { "matches" } else { "does not match" }, if want { "matches" } else { "does not" }),
+                        line.to_string(),
+                    );
+                }
+            }
+            rep.case("string properties at run time", true);
+        }
+    }
     // properties of strings need v; and are rejected under u and when negated
     for n in ["Basic_Emoji", "Emoji_Keycap_Sequence", "RGI_Emoji", "RGI_Emoji_Flag_Sequence", "RGI_Emoji_Modifier_Sequence", "RGI_Emoji_Tag_Sequence", "RGI_Emoji_ZWJ_Sequence"] {
         let p = format!("\\p{{{}}}", n);
